@@ -1,4 +1,4 @@
-\* quick, safety: the dialer node at the code's grain, every interleaving, no clocks; the listener side is an adversary (2 moves)
+\* full, safety: listener node, adversary with 5 moves
 SPECIFICATION Spec
 CONSTANTS
   Links = {1}
@@ -10,14 +10,14 @@ CONSTANTS
   QLen = 1
   Sync = FALSE
   Coarse = FALSE
-  RealNodes = {"a"}
+  RealNodes = {"b"}
   CancelOnReturn = TRUE
   BSilence = 0
   BCut = 0
   ShutNodes = {}
   CancelNodes = {}
   BReborn = 0
-  BAdv = 2
+  BAdv = 5
   BIdle = 1
   BDial = 2
   Wit = FALSE
